@@ -2184,7 +2184,7 @@ func (p *Parser) parseStatement() (ast.Statement, error) {
 		// If the next token is LBRACKET, try to parse an l-value chain followed by "=".
 		// On failure (parse error or no "=" after l-value), restore position and fall
 		// through to other statement paths (bare assignment, expression statement).
-		if p.peek(1).Type == LBRACKET {
+		if p.peek(1).Type == LBRACKET && p.lvalueIsAssigned() {
 			savedPos := p.position
 			name := p.current().Literal
 			p.advance() // consume identifier
@@ -2256,6 +2256,44 @@ func (p *Parser) parseStatement() (ast.Statement, error) {
 			"Statements must start with '$' (for variable assignment) or '>' (for return)",
 		)
 	}
+}
+
+// lvalueIsAssigned looks ahead, without parsing, over `identifier` followed by
+// any number of `[ ... ]` and `.field` and reports whether an `=` comes next.
+// The index-assignment path used to find that out by parsing the l-value and
+// starting over when no `=` followed; the index expression may contain blocks
+// whose statements do the same, so each level of nesting doubled the work (a
+// 1 KB source kept the parser busy for hours).
+func (p *Parser) lvalueIsAssigned() bool {
+	i := p.position + 1
+	for i < len(p.tokens) {
+		switch p.tokens[i].Type {
+		case LBRACKET:
+			depth := 0
+			for ; i < len(p.tokens); i++ {
+				switch p.tokens[i].Type {
+				case LBRACKET, LPAREN, LBRACE:
+					depth++
+				case RBRACKET, RPAREN, RBRACE:
+					depth--
+				case EOF:
+					return false
+				}
+				if depth == 0 {
+					break
+				}
+			}
+			i++ // past the closing bracket
+		case DOT:
+			if i+1 >= len(p.tokens) || p.tokens[i+1].Type != IDENT {
+				return false
+			}
+			i += 2
+		default:
+			return p.tokens[i].Type == EQUALS
+		}
+	}
+	return false
 }
 
 // parseReassignment parses a simple variable reassignment: identifier = expr
